@@ -875,6 +875,8 @@ def run_textprog(ctx):
 
 def run(ctx):
     run_text(ctx)
+    from props import c14fam
+    c14fam.run_textfam(ctx, gen_text, three)
     run_methods(ctx)
     run_textprog(ctx)
     run_fmt(ctx)
